@@ -3,7 +3,7 @@
 From Coq Require Import List ZArith Extraction ExtrOcamlBasic.
 From LMBase Require Import Res.
 From LMDense Require Import DenseModel.
-From LMFootprint Require Import FpModel FpHistory.
+From LMFootprint Require Import FpModel FpNeon FpHistory.
 
 Extraction Language OCaml.
 Extraction "footprint_model.ml"
@@ -17,4 +17,5 @@ Extraction "footprint_model.ml"
   wrap_argmax_f32_avx2 wrap_max_f32_avx2 wrap_argmax_u8_avx2 wrap_max_u8_avx2 wrap_argmax_sse2 ext_max
   fp_from_rows fp_ravel fp_fill fp_sample sample_rows ext_dense
   configure_wrap_model stride row_bytes
-  hstep htrace hfinal h0.
+  hstep htrace hfinal h0
+  fp_encode_into_neon fp_score_f32_neon fp_score_u8_neon wrap_score_f32_neon wrap_score_u8_neon balign_mat16.
